@@ -100,6 +100,7 @@ RULES = {
     'R3': 'for (i, v) in S.iter_mut().enumerate().take(n).skip(3) { *v = E }  ->  for i in 3..min(n, S.len()) { S[i] = E }',
     'R4': 'debug_assert_ne!(a, b, m) -> debug_assert!(a != b, m)',
     'R5': 'float literals inside T::from(..) get one axiom each (lit == its decimal value); std::f64::consts::PI -> shim const PI',
+    'R7': 'OPT.map(|v| { B })  ->  match OPT { Some(v) => Some({ B }), None => None }',
     'R6': 'Vec::last().copied() -> same call on a shim helper vec_last(&v) (contract: last element or None)',
 }
 
@@ -116,6 +117,15 @@ def rewrite_body(s, applied):
     s = sub('R3', r'for \(i, v\) in self\s*\.smooth\s*\.iter_mut\(\)\s*\.enumerate\(\)\s*\.take\(self\.vals\.len\(\)\)\s*\.skip\(3\)\s*\{\s*\*v = ',
             'for i in 3..(if self.vals.len() < self.smooth.len() { self.vals.len() } else { self.smooth.len() }) {\n            self.smooth[i] = ', s)
     s = sub('R4', r'debug_assert_ne!\((\w+), ([^,]+), ', r'debug_assert!(\1 != \2, ', s)
+    # R7: Option::map with an inline closure -> match (closures carry no contract in Verus)
+    while True:
+        m = re.search(r'(self(?:\.\w+)+(?:\(\))?)\s*\.map\(\|(\w+)\| \{', s)
+        if not m: break
+        b = m.end() - 1
+        c = match_close(s, b)
+        if s[c + 1] != ')': raise ExtractError('R7: unexpected closure shape')
+        s = s[:m.start()] + 'match %s { Some(%s) => Some({%s}), None => None }' % (m.group(1), m.group(2), s[b + 1:c]) + s[c + 2:]
+        applied.add('R7')
     s = sub('R6', r'self\.(\w+)\.last\(\)\.copied\(\)', r'vec_last(&self.\1)', s)
     return s
 
@@ -443,6 +453,9 @@ def build(out_path, only=None):
     ax, lits = literal_axioms(strip_comments(alltext))
     head = head.replace('//@@LITERAL_AXIOMS@@', ax)
     em.add(head.rstrip('\n'))
+    em.add('pub mod alg {')
+    em.add(open(os.path.join(VF, 'alg.rs')).read())
+    em.add('} // mod alg')
     em.add('pub mod lem {')
     em.add(open(os.path.join(VF, 'lem.rs')).read())
     em.add('} // mod lem')
